@@ -457,9 +457,11 @@ theorem c13_parse_src (combos : List (String × List Coord)) (cases : Option (Li
     · rintro ⟨h1, h2⟩; exact ⟨h1, fun ds hds => (c13_iff ds nc m).mp (h2 ds hds)⟩
     · rintro ⟨h1, h2⟩; exact ⟨h1, fun ds hds => (c13_iff ds nc m).mpr (h2 ds hds)⟩
 
-/-- the default of `method` in the three signatures -/
-theorem missingDefaultMethod_isnull : Gen.missingDefaultMethod = methodStr .isnull := by
-  simp only [Gen.missingDefaultMethod, Gen.Default.missingDefaultMethod, methodStr]
+/-- the default of `method` in the three signatures is `'isnull'` -/
+theorem missingDefaultMethod_isnull :
+    Gen.missingDefaultMethod = methodStr .isnull ∧ Gen.missingEntryDefaults = [methodStr .isnull, methodStr .isnull] := by
+  simp only [Gen.missingDefaultMethod, Gen.Default.missingDefaultMethod, Gen.missingEntryDefaults,
+    Gen.Default.missingEntryDefaults, methodStr, and_self]
 
 /-! ### Non-vacuity (on the example dataset of `Props/C13.lean`) -/
 
